@@ -16,6 +16,8 @@ Static clauses:
                 unresolvable only after the selection ran and came back empty)
   S-PURE        is_only_naked is a universal statement over the entries whose per-entry verdict is "the class is Naked" (E17)
   S-LATTICE / C-ORDER  see E16 / E13 (subset lattice; contains_total and is_empty_or_negative as orders)
+  S-TOPUP (2)   the `take(n)` that bounds the top-up from the wider set runs over an iterator from which the refs already picked
+                were removed (set difference / filter): forward data flow from the read of the wider field
 Not decided (not applicable to this family): completeness as such - "finds a match if one exists" depends on the greedy
 algorithm's behaviour over all stores.
 """
